@@ -12,7 +12,7 @@ from ..ref import Graph
 LEVEL = "exploration"
 TECHNIQUE = "runtime monitoring: matplotlib artists read back after plot() (image array and the colours it is painted with, Line2D, Quiver) and compared with a block/strip/cell-centre reference model; replots of the same maze in different value modes; ASCII export compared with the maze's own drawing and the pixel oracle"
 RULE = ("MazePlot(maze)[.add_node_values][.add_true_path][.add_predicted_path].plot() for all three maze kinds (trees and cyclic, grid "
-        "2..8 and oblong), unit_length in {3,4,5,9,14}, with/without node values (random, negative, constant), 0-3 predicted paths "
+        "2..8 and oblong), unit_length in {3,4,5,9,14,19,31}, paths given as lists, int64 and int8 arrays (int8 also as the stored solution), with/without node values (random, negative, constant, maps containing exactly -1.0), 0-3 predicted paths "
         "(valid, reversed, arbitrary cell lists): ax.images[0].get_array() must have size (r*ul+1)x(c*ul+1), every cell block must be "
         "uniform and non-wall (carry its value when values are supplied), the strip of every lattice edge must be passage iff the "
         "cells are connected (wall = -1 without values, masked/NaN with values); the true-path Line2D and predicted-path Quiver "
@@ -27,7 +27,7 @@ NSHARDS = {"quick": 16, "thorough": 16}
 THRESHOLDS = {"quick": {"c20:plots": 1200, "c20:kind:LatticeMaze": 200, "c20:kind:TargetedLatticeMaze": 200, "c20:kind:SolvedMaze": 200,
                         "c20:with-values": 300, "c20:without-values": 300, "c20:strips-checked": 20000, "c20:blocks-checked": 10000,
                         "c20:true-path": 500, "c20:predicted-path": 500, "c20:ascii": 1200, "c20:oblong": 100,
-                        **{f"c20:ul:{u}": 100 for u in (3, 4, 5, 9, 14)}, "c20:negative-values": 50, "c20:constant-values": 50,
+                        **{f"c20:ul:{u}": 100 for u in (3, 4, 5, 9, 14, 19, 31)}, "c20:int8-paths": 300, "c20:values-contain-minus-one": 200, "c20:negative-values": 50, "c20:constant-values": 50,
                         "c20:replots": 900, "c20:drawn-images": 2000, "c20:replot-plain-after-values": 300, "c20:detour-solution": 30}}
 THRESHOLDS["thorough"] = dict(THRESHOLDS["quick"])
 ANCHORS = ["maze_dataset.plotting.plot_maze:MazePlot._lattice_maze_to_img", "maze_dataset.plotting.plot_maze:MazePlot._rowcol_to_coord",
@@ -160,10 +160,26 @@ def run(ctx):
                 sol, e = walk, walk[-1]
                 if len(sol) - 1 > g.bfs(s)[e]:
                     ctx.tally("c20:detour-solution")
-        ul = [3, 4, 5, 9, 14][int(rng.integers(5))]
-        maze = lib.lattice(cl) if kind == "LatticeMaze" else (lib.targeted(cl, s, e) if kind == "TargetedLatticeMaze" else lib.solved(cl, sol))
-        vmode = j % 5
+        ul = [3, 4, 5, 9, 14, 19, 31][int(rng.integers(7))]
+        # coordinates as the library itself stores them after a trip through the compact on-disk formats: int8
+        pdt = np.int8 if j % 3 == 1 else None
+        if pdt is not None:
+            ctx.tally("c20:int8-paths")
+        if kind == "SolvedMaze" and pdt is not None:
+            from maze_dataset.maze.lattice_maze import SolvedMaze as _SM
+            maze = _SM(connection_list=np.array(cl, dtype=bool), solution=np.array(sol, dtype=np.int8))
+        else:
+            maze = lib.lattice(cl) if kind == "LatticeMaze" else (lib.targeted(cl, s, e) if kind == "TargetedLatticeMaze" else lib.solved(cl, sol))
+        vmode = j % 7
         values = None
+        if vmode in (5, 6):
+            # maps that contain the value -1.0 exactly (sign maps, integer-valued maps, maps normalised to [-1, 1])
+            if vmode == 5:
+                values = np.where(rng.random((R, C)) < 0.5, -1.0, 1.0)
+            else:
+                values = rng.integers(-2, 3, size=(R, C)).astype(float)
+            values[int(rng.integers(R)), int(rng.integers(C))] = -1.0
+            ctx.tally("c20:values-contain-minus-one")
         if vmode in (1, 2, 3):
             if vmode == 1:
                 values = rng.random((R, C)) * 5
@@ -198,11 +214,11 @@ def run(ctx):
                     mp.add_node_values(values.copy(), color_map=["Blues", "viridis"][j % 2])
                 if extra_true is not None:
                     if j % 4 == 0:
-                        mp.add_true_path(np.array(extra_true))
+                        mp.add_true_path(np.array(extra_true, dtype=pdt))
                     else:
                         mp.add_true_path([tuple(p) for p in extra_true])
                 for t, p in enumerate(preds):
-                    mp.add_predicted_path(np.array(p) if t % 2 == 0 else [tuple(x) for x in p])
+                    mp.add_predicted_path(np.array(p, dtype=pdt) if t % 2 == 0 else [tuple(x) for x in p])
                 mp.plot()
                 fig = mp.fig
                 ax = mp.ax
